@@ -689,7 +689,8 @@ class Engine(object):
             if star is not None:
                 kwargs = dict(kwargs)
                 kwargs['__star__'] = star
-            return m(I, ctx, *args, **kwargs)
+            from .models2 import _run_model
+            return _run_model(m, fv.name, node, I, ctx, *args, **kwargs)
         ctx.trace.append(('external', fv.name, list(args), dict(kwargs), star))
         ctx.notes.append('external %s: default contract (any result, may raise any Exception)' % fv.name)
         self.used_default_externals = getattr(self, 'used_default_externals', set())
@@ -740,7 +741,8 @@ class Engine(object):
             if star is not None:
                 kwargs = dict(kwargs)
                 kwargs['__star__'] = star
-            return c.model(I, ctx, *args, **kwargs)
+            from .models2 import _run_model
+            return _run_model(c.model, fv.qualname, node, I, ctx, *args, **kwargs)
         if c is not None and (cur is None or fv.qualname not in cur.inline):
             return self.call_contract(ctx, fr, fv, c, args, kwargs, node, star, selfv)
         if cur is not None and fv.qualname == cur.target:
